@@ -10,14 +10,14 @@ use ckb_types::{
     core::{
         cell::{CellMeta, CellProvider, CellStatus, ResolvedTransaction},
         error::OutPointError,
-        Cycle, DepType, TransactionView,
+        Cycle, DepType, ScriptHashType, TransactionView,
     },
     packed::{OutPoint, OutPointVec},
     prelude::{Entity, IntoHeaderView},
 };
 use ckb_verification::{
     CapacityVerifier, NonContextualTransactionVerifier, ScriptVerifier,
-    TimeRelativeTransactionVerifier,
+    TimeRelativeTransactionVerifier, TransactionError,
 };
 
 use crate::storage::StorageWithChainData;
@@ -25,6 +25,7 @@ use crate::storage::StorageWithChainData;
 /// Light client can only verify non-cellbase transaction,
 /// can not reuse the `ContextualTransactionVerifier` in ckb_verification crate which is used to verify cellbase also.
 pub struct ContextualTransactionVerifier {
+    pub(crate) compatible: CompatibleVerifier,
     pub(crate) time_relative: TimeRelativeTransactionVerifier<StorageWithChainData>,
     pub(crate) capacity: CapacityVerifier,
     pub(crate) script: ScriptVerifier<StorageWithChainData>,
@@ -39,6 +40,11 @@ impl ContextualTransactionVerifier {
         tx_env: Arc<TxVerifyEnv>,
     ) -> Self {
         ContextualTransactionVerifier {
+            compatible: CompatibleVerifier::new(
+                Arc::clone(&rtx),
+                Arc::clone(&consensus),
+                Arc::clone(&tx_env),
+            ),
             time_relative: TimeRelativeTransactionVerifier::new(
                 Arc::clone(&rtx),
                 Arc::clone(&consensus),
@@ -56,9 +62,66 @@ impl ContextualTransactionVerifier {
     }
 
     pub fn verify(&self, max_cycles: Cycle) -> Result<Cycle, Error> {
+        self.compatible.verify()?;
         self.time_relative.verify()?;
         self.capacity.verify()?;
         self.script.verify(max_cycles)
+    }
+}
+
+/// The same check as the `CompatibleVerifier` of the ckb_verification crate, which is a part of its
+/// `ContextualTransactionVerifier` but is not exported: features of a hardfork are rejected until
+/// the hardfork is activated.
+pub struct CompatibleVerifier {
+    rtx: Arc<ResolvedTransaction>,
+    consensus: Arc<Consensus>,
+    tx_env: Arc<TxVerifyEnv>,
+}
+
+impl CompatibleVerifier {
+    pub fn new(
+        rtx: Arc<ResolvedTransaction>,
+        consensus: Arc<Consensus>,
+        tx_env: Arc<TxVerifyEnv>,
+    ) -> Self {
+        Self {
+            rtx,
+            consensus,
+            tx_env,
+        }
+    }
+
+    pub fn verify(&self) -> Result<(), Error> {
+        let proposal_window = self.consensus.tx_proposal_window();
+        let epoch_number = self.tx_env.epoch_number(proposal_window);
+        if !self
+            .consensus
+            .hardfork_switch()
+            .ckb2023
+            .is_vm_version_2_and_syscalls_3_enabled(epoch_number)
+        {
+            for ht in self
+                .rtx
+                .transaction
+                .outputs()
+                .into_iter()
+                .map(|output| output.lock().hash_type())
+            {
+                let hash_type: ScriptHashType = ht.try_into().map_err(|_| {
+                    let val: u8 = ht.into();
+                    TransactionError::Internal {
+                        description: format!("unknown hash type {:02x}", val),
+                    }
+                })?;
+                if hash_type == ScriptHashType::Data2 {
+                    return Err(TransactionError::Compatible {
+                        feature: "VM Version 2",
+                    }
+                    .into());
+                }
+            }
+        }
+        Ok(())
     }
 }
 
